@@ -161,11 +161,16 @@ def random_cases(family, rng, count):
             out.append({"fn": "normalize", "axis": "x", "a": X, "other": Y, "lo": R(lo), "hi": R(hi)})
             v = Fraction(rng.choice([-1, 1]) * rng.randint(1, 64), 8)
             out.append({"fn": "shiftscale", "x": X, "y": Y, "op": rng.choice(["shift_x", "shift_y", "scale_x", "scale_y"]), "v": R(v)})
+    # the same requests far from the origin of the time axis (epoch seconds, 2^40): an exact translation, see fnexec.xoff
+    for k in out:
+        if k["fn"] in ("truncate", "slice_value", "repeat", "interp") and rng.random() < 0.15 \
+                and k.get("container", "array") in ("array", "list") and "xcontainer" not in k and "qcontainer" not in k:
+            k["xoff"] = [rng.choice([-1, 1]), rng.choice([31, 40])]
     return out
 
 
 CASE_KEYS = ("fn", "x", "y", "r", "a", "b", "left", "right", "lr", "rr", "start", "stop", "step", "explicit_none", "q", "n", "mode",
-             "qcontainer", "xcontainer", "explicit_method", "x0", "y0", "pre", "c", "normalized", "axis", "other", "lo", "hi", "op", "v", "container", "method", "m", "b")
+             "qcontainer", "xcontainer", "explicit_method", "x0", "y0", "pre", "c", "normalized", "axis", "other", "lo", "hi", "op", "v", "container", "method", "m", "b", "xoff")
 
 
 def case_of_event(ev):
